@@ -36,6 +36,8 @@ def st_case(draw):
     role = draw(st.sampled_from(["create", "recv"]))
     api = draw(st.sampled_from(CREATE_APIS if role == "create" else RECV_APIS))
     number = draw(st.integers(1, 4))
+    if api in ("create_measure", "create_rsp", "create:M", "create:R", "recv_measure", "recv:M") and draw(st.booleans()):
+        number = draw(st.integers(5, 9))  # nothing is kept on this node: the qubit budget (5) does not limit the pair count
     case: Dict[str, Any] = {
         "role": role,
         "api": api,
@@ -58,14 +60,15 @@ def st_case(draw):
             kw["max_time"] = draw(st.sampled_from([0, 1, 1000, 65535]) | st.integers(0, 2**20))
         if api in ("create_measure", "create_rsp"):
             sides = ["local", "remote"] if api == "create_measure" else ["local"]
-            mode = draw(st.sampled_from(["default", "basis", "rotations", "random", "mixed"]))
+            mode = draw(st.sampled_from(["default", "basis", "rotations", "random", "mixed", "mixed"]))
             for side in sides:
-                m = mode if mode != "mixed" else draw(st.sampled_from(["default", "basis", "rotations", "random"]))
-                if m == "basis":
+                m = mode if mode != "mixed" else draw(st.sampled_from(["default", "basis", "rotations", "random", "random+basis", "random+rotations", "basis+rotations"]))
+                if "basis" in m.split("+"):
                     kw["basis_" + side] = draw(st.sampled_from([b.name for b in EprMeasBasis]))
-                elif m == "rotations":
+                if "rotations" in m.split("+"):
                     kw["rotations_" + side] = [draw(st.integers(0, 31)) for _ in range(3)]
-                elif m == "random":
+                if "random" in m.split("+"):
+                    # a random-basis set travels next to the fixed rotations / named basis; neither replaces the other
                     kw["random_basis_" + side] = draw(st.sampled_from([b.name for b in RandomBasis]))
         if api in ("create_keep", "create_keep_with_info") and draw(st.integers(0, 4)) == 0:
             kw["sequential"] = True
@@ -101,8 +104,24 @@ def st_case(draw):
     if draw(st.integers(0, 2)) == 0:
         # an earlier, completed request on the same socket and connection (its handles must keep reading its own responses)
         n1 = draw(st.integers(1, 2))
+        twin = role == "create" and api in ("create_keep", "create_measure") and not kw.get("sequential") and draw(st.booleans())
+        if twin:
+            # the same kind of request, with the same number of pairs, differing in one parameter only
+            n1 = number if api == "create_measure" or number <= 2 else n1
+            bkw = {k: v for k, v in kw.items() if k in ("time_unit", "max_time")}
+            bkw.setdefault("max_time", draw(st.sampled_from([1, 1000])))
+            kw.setdefault("max_time", bkw["max_time"])
+            which = draw(st.sampled_from(["time_unit", "max_time"]))
+            if which == "time_unit":
+                bkw["max_time"] = kw["max_time"] if kw["max_time"] else 7
+                kw["max_time"] = bkw["max_time"]
+                units = [t.name for t in TimeUnit]
+                bkw["time_unit"] = draw(st.sampled_from([u for u in units if u != kw.get("time_unit", "MICRO_SECONDS")]))
+            else:
+                bkw["max_time"] = kw["max_time"] + 1
         case["before"] = {
-            "api": draw(st.sampled_from(["recv_measure", "create_measure", "recv_keep", "create_keep"])),
+            "api": api if twin else draw(st.sampled_from(["recv_measure", "create_measure", "recv_keep", "create_keep"])),
+            "kw": bkw if twin else {},
             "number": n1,
             "flush": draw(st.booleans()),
             "responses": [{"create_id": 7000 + 13 * i, "sequence_number": 7001 + 13 * i, "goodness": 7002 + 13 * i, "goodness_time": 7003 + 13 * i,
@@ -145,7 +164,8 @@ def check(case) -> Dict[str, Any]:
     if before:
         b_role = "create" if before["api"].startswith("create") else "recv"
         b_tp = "K" if before["api"].endswith("keep") else "M"
-        before_result = getattr(sock, before["api"])(number=before["number"])
+        bkw2 = {k: (TimeUnit[v] if k == "time_unit" else v) for k, v in before.get("kw", {}).items()}
+        before_result = getattr(sock, before["api"])(number=before["number"], **bkw2)
         stack.expect(b_role, b_tp, before["number"], [dict(r) for r in before["responses"]], remote_node_id=remote_id, purpose_id=case["socket_id"])
         if b_tp == "K":
             for q in before_result:
@@ -184,7 +204,8 @@ def check(case) -> Dict[str, Any]:
         else:
             result = getattr(sock, api)(number=number, **kw)
     except ValueError as e:
-        return {"rejected": f"ValueError: {str(e)[:60]}"}
+        # every generated call is valid (sequential requests for several pairs come with a post routine, kept pairs fit the budget)
+        raise Failure(f"call-rejected:{api}", case, f"{api}(number={number}, {case['kw']}) was rejected: ValueError: {str(e)[:160]}")
     tp = "K" if api in ("create_keep", "create_keep_with_info", "recv_keep", "recv_keep_with_info", "recv_rsp", "recv_rsp_with_info", "create_context", "recv_context") else "M"
     fields = []
     for i, r in enumerate(case["responses"]):
@@ -212,6 +233,12 @@ def check(case) -> Dict[str, Any]:
         if len(stack.requests) != n_req:
             raise Failure(f"request-count:{api}", case, f"stack received {len(stack.requests)} requests")
         req = stack.requests[-1]
+        if before and before["api"].startswith("create") and before.get("kw"):
+            r0 = stack.requests[0]
+            for fld, want0 in (("max_time", before["kw"].get("max_time", 0)), ("time_unit", TimeUnit[before["kw"].get("time_unit", "MICRO_SECONDS")]), ("number", before["number"])):
+                got0 = getattr(r0, fld)
+                if (got0.value if hasattr(got0, "value") else got0) != (want0.value if hasattr(want0, "value") else want0) and not (fld == "time_unit" and before["kw"].get("max_time", 0) == 0):
+                    raise Failure(f"request-field:{fld}:earlier-request", case, f"{before['api']} issued first: network stack received {fld}={got0!r}, the call asked for {want0!r}")
         rtype = {"create_keep": "K", "create_keep_with_info": "K", "create_measure": "M", "create_rsp": "R", "create_context": "K"}[api]
         want = dict(zip(LinkLayerCreate._fields, LinkLayerCreate.__new__.__defaults__))
         want.update(remote_node_id=remote_id, purpose_id=case["socket_id"], type=RequestType[rtype], number=number)
